@@ -37,6 +37,7 @@ Definition run_case (x : sexp) : sexp :=
         else if String.eqb fam "c09describe" then run_describe_case payload
         else if String.eqb fam "c10mutants" then run_mutant_case payload
         else if String.eqb fam "structobj" then run_xschema_case payload
+        else if String.eqb fam "c14x" then run_c14x_case payload
         else bad "unknown family" in
       Ls [At "obs"; id; r]
   | _ => bad "not a case"
